@@ -150,8 +150,69 @@ class Gen:
         if c == 11:
             return [S(r.choice(["max", "min", "mod"])), self.int_(d - 1), r.choice([2, 3, S("a")])]
         if c == 12:
-            return [S("nth"), self.list_(d - 1), r.randrange(3)]        # may be nil: ill-typed uses follow
+            return [S("nth"), self.seq_(d - 1), r.randrange(3)]        # may be nil: ill-typed uses follow
+        if r.random() < 0.5:
+            return r.choice([[S("length"), self.vec_(d - 1)], [S("length"), self.map_(d - 1)], [S("aref"), self.vec_(d - 1), r.randrange(3)],
+                             [S("first"), self.vec_(d - 1)], [S("second"), self.seq_(d - 1)], [S("foldl"), S("add"), 0, self.vec_(d - 1)],
+                             [S("get"), self.map_(d - 1), r.choice(self.KEYS)]])
         return [S("car"), self.list_(d - 1)]
+
+    KEYS = [STR("a"), STR("b"), STR("c"), Q(S("a")), Q(S("k")), Q(S("x"))]
+
+    def vec_(self, d):
+        r = self.rnd
+        if d <= 0 or r.random() < 0.25:
+            return r.choice([[S("vector"), 1, 2, 3], [S("vector")], [S("vector"), S("a"), 7], S("v1")])
+        c = r.randrange(7)
+        if c == 0:
+            return [S("vector")] + [self.int_(d - 1) for _ in range(r.randrange(4))]
+        if c == 1:
+            return [S("append"), Q(S("vector")), self.seq_(d - 1), self.int_(d - 1)]
+        if c == 2:
+            return [S("map"), Q(S("vector")), r.choice([S("inc"), [S("lambda"), [S("e")], [S("*"), S("e"), 2]]]), self.seq_(d - 1)]
+        if c == 3:
+            return [S("reverse"), Q(S("vector")), self.seq_(d - 1)]
+        if c == 4:
+            return [S("concat"), Q(S("vector")), self.seq_(d - 1), self.seq_(d - 1)]
+        if c == 5:
+            return [S(r.choice(["select", "reject"])), Q(S("vector")), [S("lambda"), [S("e")], [S(">"), S("e"), self.int_(0)]], self.seq_(d - 1)]
+        return [S("if"), self.bool_(d - 1), self.vec_(d - 1), self.vec_(d - 1)]
+
+    def seq_(self, d):
+        return self.vec_(d) if self.rnd.random() < 0.5 else self.list_(d)
+
+    def map_(self, d):
+        r = self.rnd
+        if d <= 0 or r.random() < 0.3:
+            return r.choice([[S("sorted-map")], [S("sorted-map"), STR("a"), 1, Q(S("k")), 2], [S("sorted-map"), Q(S("x")), 5, STR("b"), 6, STR("a"), 7], S("m1")])
+        c = r.randrange(4)
+        if c == 0:
+            ks = r.sample(self.KEYS, r.randrange(1, 4))
+            out = [S("sorted-map")]
+            for k in ks:
+                out += [k, self.int_(d - 1)]
+            return out
+        if c == 1:
+            return [S("assoc"), self.map_(d - 1), r.choice(self.KEYS), self.int_(d - 1)]
+        if c == 2:
+            return [S("dissoc"), self.map_(d - 1), r.choice(self.KEYS)]
+        return [S("if"), self.bool_(d - 1), self.map_(d - 1), self.map_(d - 1)]
+
+    def data_(self, d):
+        """an expression whose VALUE is a vector, a map or a mixed structure: printed by the probe"""
+        r = self.rnd
+        c = r.randrange(6)
+        if c == 0:
+            return self.vec_(d)
+        if c == 1:
+            return self.map_(d)
+        if c == 2:
+            return [S("keys"), self.map_(d)]
+        if c == 3:
+            return [S("list"), self.vec_(d - 1), self.map_(d - 1), [S("get"), self.map_(d - 1), r.choice(self.KEYS)]]
+        if c == 4:
+            return [S("rest"), self.vec_(d)]
+        return [S("vector"), self.list_(d - 1), self.vec_(d - 1), [S("first"), self.seq_(d - 1)]]
 
     def num_(self, d):
         """a numeric expression that may be a float: only + - * and binders, never compared or indexed with"""
@@ -173,6 +234,12 @@ class Gen:
             return r.choice([S("true"), S("false"), []])
         c = r.randrange(9)
         if c == 8:
+            if r.random() < 0.6:
+                return r.choice([[S(r.choice(["vector?", "list?", "sorted-map?", "array?", "string?"])), self.data_(d - 1)],
+                                 [S("empty?"), self.vec_(d - 1)], [S("empty?"), self.map_(d - 1)],
+                                 [S("equal?"), self.vec_(d - 1), self.seq_(d - 1)], [S("equal?"), self.map_(d - 1), self.map_(d - 1)],
+                                 [S("key?"), self.map_(d - 1), r.choice(self.KEYS)],
+                                 [S(r.choice(["any?", "all?"])), [S("lambda"), [S("e")], [S(">"), S("e"), 1]], self.vec_(d - 1)]])
             return [S(r.choice(["float?", "int?", "number?"])), self.num_(d - 1)]
         if c < 2:
             return [S(r.choice(["<", ">", "=", "<=", ">="])), self.int_(d - 1), self.int_(d - 1)]
@@ -215,7 +282,10 @@ class Gen:
 
     def illtyped(self, d):
         r = self.rnd
-        return r.choice([[S("+"), self.list_(d), 1], [S("car"), self.int_(d)], [S("length"), self.int_(d)], [self.int_(d), 1],
+        return r.choice([[S("car"), self.vec_(d)], [S("cdr"), self.vec_(d)], [S("get"), self.vec_(d), 0], [S("get"), self.map_(d), 1], [S("aref"), self.vec_(d), 7],
+                         [S("aref"), self.list_(d), 0], [S("nth"), self.vec_(d), -1], [S("sorted-map"), STR("a")], [S("sorted-map"), 1, 2], [S("keys"), self.vec_(d)],
+                         [S("cons"), 1, self.vec_(d)], [S("foldl"), S("add"), 0, self.map_(d)], [S("first"), self.map_(d)], [S("map"), Q(S("sorted-map")), S("inc"), self.list_(d)],
+                         [S("+"), self.list_(d), 1], [S("car"), self.int_(d)], [S("length"), self.int_(d)], [self.int_(d), 1],
                          [S("foldl"), 5, 0, self.list_(d)], [S("nth"), self.list_(d), self.list_(d)], [S("cons"), 1, self.int_(d)],
                          [S("undefined-fn"), 1], S("undefined-var"), [S("set!"), S("nope"), 1], [S("if"), 1, 2], [S("let"), [[S("a")]], 1]])
 
@@ -223,13 +293,14 @@ class Gen:
 def random_program(rnd):
     g = Gen(rnd)
     forms = [[S("set"), Q(S("a")), rnd.randrange(5)], [S("set"), Q(S("b")), rnd.randrange(5)], [S("set"), Q(S("l1")), Q([3, 1, 2])],
+             [S("set"), Q(S("v1")), [S("vector"), 4, 0, 9]], [S("set"), Q(S("m1")), [S("sorted-map"), STR("b"), 2, Q(S("a")), 1]],
              [S("defun"), S("inc"), [S("n")], [S("+"), S("n"), 1]],
              [S("defun"), S("add"), [S("p"), S("q")], [S("+"), S("p"), S("q")]],
              [S("defun"), S("make-counter"), [], [S("let"), [[S("n"), 0]], [S("lambda"), [], [S("set!"), S("n"), [S("+"), S("n"), 1]], S("n")]]],
              [S("set"), Q(S("ctr")), [S("make-counter")]]]
     for _ in range(rnd.randrange(3, 7)):
         k = rnd.random()
-        e = g.int_(4) if k < 0.3 else g.num_(3) if k < 0.45 else g.list_(4) if k < 0.7 else g.bool_(4) if k < 0.85 else g.illtyped(2)
+        e = g.int_(4) if k < 0.25 else g.num_(3) if k < 0.35 else g.list_(4) if k < 0.5 else g.data_(3) if k < 0.7 else g.bool_(4) if k < 0.85 else g.illtyped(2)
         if rnd.random() < 0.15:
             e = [S("list"), [S("funcall"), Q(S("ctr"))], e, [S("funcall"), Q(S("ctr"))]]
         forms.append([S("probe"), Q(S("v")), GUARD(e)])
